@@ -187,8 +187,22 @@ where
     u.raw("""
 // A-tonic-conn-01: Connection::new (hyper client settings and the tower stack around Reconnect; not under contract) builds the
 // channel service with the given laziness; ServiceExt::ready_oneshot drives it to readiness and hands the same service back
-pub struct Endpoint { pub id: Ghost<int> }
+pub struct Endpoint { pub id: Ghost<int>, pub buffer_size: Option<usize>, pub executor: SharedExec }
 pub struct Connection { pub lazy: Ghost<bool>, pub endpoint: Ghost<Endpoint> }
+// A-tower-20: tower::buffer::Buffer::pair turns a service into a cloneable handle on it plus the worker future that drives it;
+// SharedExec::execute spawns a future (an opaque call: that the worker runs is not stated)
+pub struct SharedExec { pub id: Ghost<int> }
+impl Clone for SharedExec { #[verifier::external_body] fn clone(&self) -> (r: Self) ensures r == *self { unimplemented!() } }
+pub struct BufferWorker { pub drives: Ghost<Connection> }
+impl SharedExec { #[verifier::external_body] pub fn execute(&self, w: BufferWorker) { unimplemented!() } }
+pub struct Buffer { pub wraps: Ghost<Connection> }
+impl Buffer {
+    #[verifier::external_body]
+    pub fn pair(svc: Connection, bound: usize) -> (r: (Buffer, BufferWorker)) ensures r.0.wraps@ == svc, r.1.drives@ == svc { unimplemented!() }
+}
+pub struct Error { pub source: BoxError }
+impl Error { pub fn from_source(source: BoxError) -> (r: Error) ensures r.source == source { Error { source } } }
+pub mod upper { pub use super::Error; }
 impl Connection {
     #[verifier::external_body]
     pub fn new<C>(connector: C, endpoint: Endpoint, is_lazy: bool) -> (r: Self) ensures r.lazy@ == is_lazy, r.endpoint@ == endpoint { unimplemented!() }
@@ -202,6 +216,20 @@ impl Connection {
          ensures=[Clause('L1_connect_builds_an_eager_channel_and_drives_it_to_readiness', 'r matches Ok(c) ==> !c.lazy@ && c.endpoint@ == endpoint')])
     u.fn(CN, 'lazy', within='impl Connection', sig_edits=gen,
          ensures=[Clause('L2_lazy_builds_a_lazy_channel', 'r.lazy@ && r.endpoint@ == endpoint')])
+    u.close('}')
+    # ---- Channel::{new, connect}: the public constructors pick lazy / eager (channel/mod.rs) ----
+    CH = 'tonic/src/transport/channel/mod.rs'
+    u.item(CH, 'const', 'DEFAULT_BUFFER_SIZE')
+    u.item(CH, 'struct', 'Channel', edits=[lambda t: t.sub_code('R12', r"Buffer<Request<Body>, BoxFuture<'static, Result<Response<Body>, crate::BoxError>>>", 'Buffer')])
+    chg = gen + [lambda t: t.sub_code('R12', r'super::Error', 'Error')]
+    u._emit('impl Channel {'); u._open_header = 'impl Channel {'
+    u.fn(CH, 'new', within='impl Channel', sig_edits=chg, body_edits=chg, display='Channel::new',
+         closures={0: dict(params='e: BoxError', ret='(x: Error)', ensures=['x.source == e'])} if False else None,
+         ensures=[Clause('H1_a_channel_made_without_connecting_is_lazy', 'r.svc.wraps@.lazy@ && r.svc.wraps@.endpoint@ == endpoint')])
+    u.fn(CH, 'connect', within='impl Channel', sig_edits=chg, display='Channel::connect',
+         body_edits=chg + [lambda t: t.sub_code('R3', r'\.map_err\(Error::from_source\)', '.map_err(|e| Error::from_source(e))')],
+         closures={0: dict(params='e: BoxError', ret='(x: Error)', ensures=['x.source == e'])},
+         ensures=[Clause('H2_a_connected_channel_is_eager_so_its_first_failure_was_reported_by_connect_itself', 'r matches Ok(ch) ==> !ch.svc.wraps@.lazy@ && ch.svc.wraps@.endpoint@ == endpoint')])
     u.close('}')
     u._emit('} // mod connection')
     return u
